@@ -49,24 +49,57 @@ class Match:
     def __init__(self, s, start, end, groups, names, ngroups):
         self.s, self.start_, self.end_, self.groups_, self.names, self.ngroups = s, start, end, groups, names, ngroups
 
-    def group(self, g=0):
+    def _group(self, g=0):
         if g == 0:
             return self.s[self.start_: self.end_]
         if isinstance(g, str):
+            if g not in self.names:
+                raise IndexError("no such group")
             g = self.names[g]
+        elif not 0 <= g <= self.ngroups:
+            raise IndexError("no such group")
         if g not in self.groups_:
             return None
         a, b = self.groups_[g]
         return self.s[a:b]
 
-    def groups(self):
-        return tuple(self.group(i) for i in range(1, self.ngroups + 1))
+    def group(self, *gs):
+        if not gs:
+            gs = (0,)
+        vals = tuple(self._group(g) for g in gs)
+        return vals[0] if len(vals) == 1 else vals
 
-    def start(self):
-        return self.start_
+    __getitem__ = lambda self, g: self._group(g)  # noqa: E731
 
-    def end(self):
-        return self.end_
+    def groups(self, default=None):
+        return tuple(default if (v := self._group(i)) is None else v for i in range(1, self.ngroups + 1))
+
+    def groupdict(self, default=None):
+        return {k: (default if (v := self._group(i)) is None else v) for k, i in self.names.items()}
+
+    def _span(self, g):
+        if g == 0:
+            return (self.start_, self.end_)
+        if isinstance(g, str):
+            g = self.names[g]
+        return self.groups_.get(g, (-1, -1))
+
+    def start(self, g=0):
+        return self._span(g)[0]
+
+    def end(self, g=0):
+        return self._span(g)[1]
+
+    def span(self, g=0):
+        return self._span(g)
+
+    @property
+    def string(self):
+        return self.s
+
+    @property
+    def lastindex(self):
+        return max(self.groups_) if self.groups_ else None
 
 
 class SymPattern:
